@@ -228,7 +228,7 @@ keyTag(String str)
 	 * If we have something, do any tokens start with the
 	 * same character?
 	 */
-	if (!str || (ch = str[0]) == 0 || keyIx[ch] == KeyNope)
+	if (!str || (ch = str[0]) <= 0 || keyIx[ch] == KeyNope)
 		return TK_LIMIT;
 
 
@@ -273,7 +273,7 @@ keyLongest(String str)
 	 * If we have something, do any tokens start with the
 	 * same character?
 	 */
-	if (!str || (ch = str[0]) == 0 || keyIx[ch] == KeyNope)
+	if (!str || (ch = str[0]) <= 0 || keyIx[ch] == KeyNope)
 		return TK_LIMIT;
 
 
